@@ -48,7 +48,7 @@ impl<'a> PrettyPrinter<'a> {
             Pattern::Normal(n) => self.convert_expr(ctx, n),
             Pattern::Placeholder(_) => self.convert_literal("_"),
             Pattern::Destructuring(d) => self.convert_destructuring(ctx, d),
-            Pattern::Parenthesized(p) => self.convert_parenthesized(ctx, p),
+            Pattern::Parenthesized(p) => self.convert_parenthesized(ctx, p, false),
         }
     }
 
